@@ -11,8 +11,8 @@ from ..util import as_list, tmp_dir
 from .. import datasets as D
 
 IMPORTS = ('phylib.io.model',)
-VALUES = {'i3': 3, 'f15': 1.5, 'good': 'good', 'i7': 7, 'i5': 5, 'none': None}
-RVALUES = {3: 'i3', 1.5: 'f15', 'good': 'good', 7: 'i7', 5: 'i5'}
+VALUES = {'i3': 3, 'f15': 1.5, 'good': 'good', 'i7': 7, 'i5': 5, 'none': None, 'f4': 4.0, 'big': 2 ** 53 + 1}
+RVALUES = {3: 'i3', 1.5: 'f15', 'good': 'good', 7: 'i7', 5: 'i5', 2 ** 53 + 1: 'big'}
 FOREIGN = {
     'valid': ('foreign_valid.csv', b'cluster_id,foreignfield\n0,5\n2,7\n'),
     'multi': ('foreign_multi.tsv', b'cluster_id\tfa\tfb\n0\t\t5\n2\t7\t\n'),
@@ -95,6 +95,8 @@ class Rig(object):
                 tok = RVALUES.get(v) if (not isinstance(v, bool)) else None
                 if isinstance(v, float) and v == 1.5:
                     tok = 'f15'
+                if isinstance(v, float) and v == 4.0:
+                    tok = 'f4'
                 rows.append([int(cid), tok if (tok and type(VALUES[tok]) is type(v)) else 'other:%r' % (v,)])
             md.append([f, rows])
         obs = dict(loaded=True, sc=sc[0] if sc else 'other', md=md, subset=m.spike_waveforms is not None,
@@ -162,7 +164,7 @@ def replay_history(ctx, d, rng, hist, k):
 def random_trace(ctx, d, rng, k, rid0, length):
     rig = Rig(d, rng, k)
     recs = [dict(id=rid0, op='begin')]
-    maps = [[[0, 'i3'], [2, 'good']], [[0, 'none'], [2, 'f15']], [[0, 'none'], [2, 'none']], [[2, 'i7']],
+    maps = [[[0, 'i3'], [2, 'good']], [[0, 'none'], [2, 'f15']], [[0, 'none'], [2, 'none']], [[2, 'i7']], [[0, 'f4'], [2, 'big']],
             [[0, 'f15'], [2, 'i3'], [4, 'good']], []]
     open_ = True
     subset = False
